@@ -53,7 +53,7 @@ def slices(tier):
         dict(MaxE="3" if big else "2", MaxG="3" if big else "2", PX="2", PY="1", ELabels=S(q("car")), GLabels=S(q("car")), Frames="{0}",
              PolicySet=S(q("DEFAULT")), TargetSets=S('<<"car">>'), RadiusSets="{<<>>, <<<<3,2>>>>, <<<<2,1>>>>}", ModeSet=DIST_MODES,
              FpvalSet="{FALSE}", Sample="0"),
-        ("3d", "2d", "3d_derived", "2d_tl"),
+        ("3d", "2d", "3d_derived", "2d_tl", "3d_frames", "2d_pos"),
     )
     sl["A_iou"] = (
         dict(MaxE="2", MaxG="3" if big else "2", PX="3" if big else "2", PY="1", ELabels=S(q("car")), GLabels=S(q("car")), Frames="{0}",
@@ -73,7 +73,7 @@ def slices(tier):
         dict(MaxE="2", MaxG="2", PX="1", PY="0", ELabels=S(q("car"), q("unknown")), GLabels=S(q("car"), q("false_positive")),
              Frames="{0, 1}", PolicySet=S(q("DEFAULT"), q("ALLOW_UNKNOWN")) if big else S(q("DEFAULT")), TargetSets=S(T2), RadiusSets="{<<>>, <<<<3,2>>, <<3,2>>>>}",
              ModeSet=S(q("center")), FpvalSet="{TRUE, FALSE}", Sample="0"),
-        ("3d", "2d", "2d_tl"),
+        ("3d", "2d", "2d_tl", "3d_frames", "2d_pos"),
     )
     # D: random subset of the big product space (3x3, 2-D lattice, all labels, policies, modes)
     n = "10000" if big else "600"
@@ -128,6 +128,22 @@ def render(sc, kind):
 
         e_, g_ = render(sc, "3d")
         return [derive(o) for o in e_], [derive(o, 1) for o in g_]
+    if kind == "3d_frames":
+        from perception_eval.common.schema import FrameID
+
+        members = list(FrameID)
+        h_ = (sum(sc["epos"][i][0] * 3 + sc["epos"][i][1] for i in range(sc["ne"])) + 7 * sc["ne"] + 5 * sc["ng"] + len(sc["radius"])) % len(members)
+        pick = {0: members[h_], 1: members[(h_ + 7) % len(members)]}
+        e_, g_ = render(sc, "3d")
+        for o, f in list(zip(e_, sc["efr"])) + list(zip(g_, sc["gfr"])):
+            o.frame_id = pick[f]
+        return e_, g_
+    if kind == "2d_pos":
+        # 2-D ROI objects that also carry the optional 3-D position (all within a metre of each other): the matcher is about the ROIs
+        e_, g_ = render(sc, "2d")
+        for k_, o in enumerate(e_ + g_):
+            o.set_position((10.0 + 0.1 * k_, -2.0, 0.5))
+        return e_, g_
     ests, gts = [], []
     for i in range(sc["ne"]):
         x, y = sc["epos"][i]
@@ -176,6 +192,16 @@ def call_matcher(sc, kind, ests, gts):
     from ..build import TL
 
     targets = [TL[TL_OF[t]] for t in sc["targets"]] if kind == "2d_tl" else [AW[t] for t in sc["targets"]]
+    tf = _EGO0.transforms() if kind.startswith("3d") else None
+    if kind == "3d_frames":
+        # every frame that occurs is registered against base_link (identity: the frames only have to be told apart)
+        from pyquaternion import Quaternion
+
+        from perception_eval.common.schema import FrameID
+        from perception_eval.common.transform import HomogeneousMatrix, TransformDict
+
+        used = {o.frame_id for o in list(ests) + list(gts)} - {FrameID.BASE_LINK}
+        tf = TransformDict(_EGO0.matrices() + [HomogeneousMatrix((0.0, 0.0, 0.0), Quaternion(), src=f, dst=FrameID.BASE_LINK) for f in used if f != FrameID.MAP])
     thr = [n / d for (n, d) in sc["radius"]] if sc["radius"] else None
     return get_object_results(
         evaluation_task=task,
@@ -185,7 +211,7 @@ def call_matcher(sc, kind, ests, gts):
         matching_label_policy=POLICIES[sc["policy"]],
         matching_mode=MODES[sc["mode"]],
         matchable_thresholds=thr,
-        transforms=_EGO0.transforms() if kind.startswith("3d") else None,
+        transforms=tf,
     )
 
 
@@ -204,6 +230,8 @@ def replay_one(arg):
     n = 0
     for kind in kinds:
         if kind.startswith("2d") and sc["mode"] in ("plane", "iou3d"):
+            continue
+        if kind == "3d_frames" and sc["mode"] != "center":
             continue
         if kind.startswith("3d") and sc["mode"] != "center" and any(f == 1 for f in list(sc["efr"])[: sc["ne"]] + list(sc["gfr"])[: sc["ng"]]):
             continue
